@@ -10,6 +10,7 @@ from ...schema import (
     EnumType,
     GraphQLType,
     InputObjectType,
+    ListType,
     NonNullType,
     ScalarType,
     unwrap_type,
@@ -93,6 +94,19 @@ class ValuesOfCorrectTypeChecker(ValidationVisitor):
                 input_type.get_value(node.value)
             except UnknownEnumValue:
                 self._report_bad_value(input_type, node)
+
+    def enter_list_value(self, node):
+        # Items of an actual list are checked on their own.
+        input_type = self.type_info.enclosing_input_type
+        list_type = (
+            input_type.type
+            if isinstance(input_type, NonNullType)
+            else input_type
+        )
+
+        if list_type is not None and not isinstance(list_type, ListType):
+            self._report_bad_value(input_type, node)
+            raise SkipNode()
 
     def enter_object_value(self, node):
         named_type = (
